@@ -74,7 +74,7 @@ class C06(F.Spec):
         ops.append("relstate")
         lvl = [1] * ni
         for _ in range(rng.randint(3, 14)):
-            a = rng.choice(["set", "set", "set", "timed", "timed", "unknown", "group", "button", "button", "adv", "advlong"])
+            a = rng.choice(["set", "set", "set", "timed", "timed", "unknown", "group", "button", "button", "adv", "advlong", "rswitch"])
             ch = rng.randrange(n)
             if a == "set":
                 ops.append("msg 110 " + set_value(rng.randint(1, 1 << 20), ch, 0, [rng.choice([0, 1, 1, 0, 2, 255, 77])]).hex())
@@ -92,6 +92,9 @@ class C06(F.Spec):
                 else:
                     lvl[ch] ^= 1
                     ops += ["input %d %d" % (pin, lvl[ch]), "adv 300"]
+            elif a == "rswitch":
+                # a local switch request handed straight to supla_esp_gpio_relay_switch (255 = toggle)
+                ops.append("rswitch %d %d" % (1 + ch, rng.choice([0, 1, 255, 255])))
             elif a == "adv":
                 self.adv(ops, rng.choice([50, 400, 1200]))
             else:
@@ -174,6 +177,14 @@ class C06(F.Spec):
             if not started:
                 continue
             his = [e for e in evs if "pin" in e]
+            if t[0] == "rswitch" and his and 0 <= int(t[1]) - 1 < n:
+                # the decision of supla_esp_gpio_relay_switch against its model (switchHi): what is handed to relay_hi
+                k = int(t[1]) - 1
+                st = [o.split() for o in case.ops if o.startswith("staircase ")]
+                stair = 1 if any(int(x[1]) == k and int(x[2]) > 0 for x in st) else 0
+                stype = int(st[-1][3]) if st else 0
+                ops.append("rswitch %d %d %d %s" % (k, stair, stype, t[2]))
+                exp.append(["RSW %d" % his[0]["hi"]])
             for e in his:
                 k = e["pin"] - 1
                 if not (0 <= k < n):
@@ -325,6 +336,11 @@ class C06(F.Spec):
                             timer[ch] = (now + stair[ch], 0)
                     elif dur > 0 and (v == 1 or me["chflags"][ch] & cd):
                         timer[ch] = (now + dur, 0 if v else 1)
+            elif t[0] == "rswitch":
+                k = int(t[1]) - 1
+                if 0 <= k < n:
+                    unknown.add(k)          # judged by the model comparison; the reference resynchronises on the output
+                    timer.pop(k, None)
             elif t[0] == "input":
                 pin, lv = int(t[1]), int(t[2])
                 k = pin - 9
